@@ -415,7 +415,7 @@ func (P) Generate(g *core.Gen) {
 		}
 	}
 	// 2. random scripts, every configuration.
-	for i, n := 0, g.N(2500, 80000); i < n; i++ {
+	for i, n := 0, g.N(2500, 60000); i < n; i++ {
 		class, nt, line := randHS(r)
 		g.Case(class, nt, line)
 	}
@@ -530,7 +530,7 @@ func (P) Generate(g *core.Gen) {
 		}
 	}
 	// 4. pipeline scenarios: run on the real peer now; the observed trace goes on the line.
-	for i, n := 0, g.N(300, 12000); i < n; i++ {
+	for i, n := 0, g.N(300, 10000); i < n; i++ {
 		c := pipeCfg{nProd: 1 + r.Intn(8), nMsg: 1 + r.Intn(12), seed: r.U64(), invCallers: r.Intn(3)}
 		switch x := r.Intn(20); {
 		case x < 9:
